@@ -32,3 +32,8 @@ Definition sase_case (steps : list step) (negs : list (N * option pred)) (part :
   | None => "PANIC"
   | Some l => join "/" l ++ "@" ++ str_of_nat (length (g_nfa g))
   end.
+
+(* the C02 reference evaluated on a case: stacks joined by ';' (the driver sorts them) *)
+From VP Require Import Sase.Ref.
+Definition ref_case (steps : list step) (negs : list (N * option pred)) (part : option N) (evs : list event) : string :=
+  join ";" (map str_ids (ref_matches negs part steps evs)).
